@@ -107,7 +107,7 @@ pub fn explore_shapes(max_commits: usize, max_extra_branches: usize) -> (Vec<Sha
 }
 
 #[derive(Clone, Copy, Debug, PartialEq, Eq, Hash)]
-pub enum DateMode { Increasing, Decreasing, ZigZag }
+pub enum DateMode { Increasing, Decreasing, ZigZag, Equal }
 
 pub fn dates(n: usize, mode: DateMode) -> Vec<i64> {
     let base = 1_600_000_000i64;
@@ -115,6 +115,7 @@ pub fn dates(n: usize, mode: DateMode) -> Vec<i64> {
         DateMode::Increasing => base + 1000 * i as i64,
         DateMode::Decreasing => base - 1000 * i as i64,
         DateMode::ZigZag => base + if i % 2 == 0 { 1000 * i as i64 } else { -1000 * i as i64 },
+        DateMode::Equal => base,
     }).collect()
 }
 
@@ -125,11 +126,11 @@ pub struct Tag { pub name: String, pub target: usize, pub annotated: bool }
 pub enum Head { Branch(String), Detached(usize) }
 
 #[derive(Clone, Copy, Debug, PartialEq, Eq, Hash)]
-pub enum WorkTree { Clean, ModifiedTracked, StagedNew, Untracked, IgnoredOnly, ModifiedAndIgnored, DeletedTracked, StagedModification }
+pub enum WorkTree { Clean, ModifiedTracked, StagedNew, Untracked, IgnoredOnly, ModifiedAndIgnored, DeletedTracked, StagedModification, UntrackedInSubdir, EmptyUntrackedDir, IgnoredDir, StagedDeletion, StagedRename, ModeChange, StagedThenReverted }
 
 impl WorkTree {
-    pub fn dirty(self) -> bool { !matches!(self, WorkTree::Clean | WorkTree::IgnoredOnly) }
-    pub const ALL: [WorkTree; 8] = [WorkTree::Clean, WorkTree::ModifiedTracked, WorkTree::StagedNew, WorkTree::Untracked, WorkTree::IgnoredOnly, WorkTree::ModifiedAndIgnored, WorkTree::DeletedTracked, WorkTree::StagedModification];
+    pub fn dirty(self) -> bool { !matches!(self, WorkTree::Clean | WorkTree::IgnoredOnly | WorkTree::EmptyUntrackedDir | WorkTree::IgnoredDir | WorkTree::StagedThenReverted) }
+    pub const ALL: [WorkTree; 15] = [WorkTree::Clean, WorkTree::ModifiedTracked, WorkTree::StagedNew, WorkTree::Untracked, WorkTree::IgnoredOnly, WorkTree::ModifiedAndIgnored, WorkTree::DeletedTracked, WorkTree::StagedModification, WorkTree::UntrackedInSubdir, WorkTree::EmptyUntrackedDir, WorkTree::IgnoredDir, WorkTree::StagedDeletion, WorkTree::StagedRename, WorkTree::ModeChange, WorkTree::StagedThenReverted];
 }
 
 pub fn git_env() -> Vec<(String, String)> {
@@ -279,6 +280,14 @@ impl Repo {
             WorkTree::ModifiedAndIgnored => { std::fs::write(p("ignored.log"), "x").unwrap(); std::fs::write(p(tracked_file), "changed").unwrap(); }
             WorkTree::DeletedTracked => { std::fs::remove_file(p(tracked_file)).unwrap(); }
             WorkTree::StagedModification => { std::fs::write(p(tracked_file), "changed").unwrap(); git(&self.dir, &["add", tracked_file], None); }
+            WorkTree::UntrackedInSubdir => { std::fs::create_dir_all(p("sub/deeper")).unwrap(); std::fs::write(p("sub/deeper/new.txt"), "x").unwrap(); }
+            WorkTree::EmptyUntrackedDir => { std::fs::create_dir_all(p("emptydir/inner")).unwrap(); }
+            WorkTree::IgnoredDir => { std::fs::create_dir_all(p("ignored_dir")).unwrap(); std::fs::write(p("ignored_dir/file.txt"), "x").unwrap(); }
+            WorkTree::StagedDeletion => { git(&self.dir, &["rm", "-q", tracked_file], None); }
+            WorkTree::StagedRename => { git(&self.dir, &["mv", tracked_file, "renamed"], None); }
+            WorkTree::ModeChange => { use std::os::unix::fs::PermissionsExt; std::fs::set_permissions(p(tracked_file), std::fs::Permissions::from_mode(0o755)).unwrap(); }
+            // content changed and staged, then changed back in the work tree and re-staged: index == HEAD again
+            WorkTree::StagedThenReverted => { let orig = std::fs::read(p(tracked_file)).unwrap(); std::fs::write(p(tracked_file), "changed").unwrap(); git(&self.dir, &["add", tracked_file], None); std::fs::write(p(tracked_file), orig).unwrap(); git(&self.dir, &["add", tracked_file], None); }
         }
         // conformance with a command zerv does not use in this form
         let st = git(&self.dir, &["status", "--porcelain=v2", "--ignored=no", "--untracked-files=all"], None);
